@@ -182,3 +182,29 @@ Proof.
     | intros D; first [ reflexivity | exfalso; gj_nonzero D ] ] | ]).
   apply Forall_nil.
 Qed.
+
+(* Gauss-Jordan, N = 3: outputs are inv (9), inv A (9), A inv (9) *)
+Definition gj3_ok (l : list R) : Prop :=
+  firstn 9 (skipn 9 l) = [1;0;0;0;1;0;0;0;1] /\ skipn 18 l = [1;0;0;0;1;0;0;0;1].
+(* side conditions of field: the cleared-denominator form of each pivot follows from the pivot test of the path *)
+Ltac nz3 := repeat split;
+  first [ assumption
+        | let E := fresh "E" in intro E;
+          match goal with H : ?q <> 0 |- _ =>
+            apply H; field_simplify_eq;
+            [ first [ (etransitivity; [ | exact E ]; ring) | (rewrite <- E; ring) ] | nz3 ] end ].
+Ltac gj3 := unfold gj3_ok; autounfold with gen; ops_R; intros PC; decompose [and] PC; clear PC;
+  repeat match goal with H : ~ (_ <= _) |- _ => clear H | H : _ <= _ |- _ => clear H end;
+  cbn [firstn skipn]; split; list_eq ltac:(first [ ring | field; nz3 ]).
+
+(* parts of complex vectors, squared norms of vectors and matrices *)
+Lemma tie_complex_vector_parts v0r v0i v1r v1i v2r v2i :
+  complex_vector_parts (OO:=ROps) v0r v0i v1r v1i v2r v2i =
+  [v0r; v1r; v2r; v0i; v1i; v2i; v0r; - v0i; v1r; - v1i; v2r; - v2i;
+   v0r*v0r + v0i*v0i + v1r*v1r + v1i*v1i + v2r*v2r + v2i*v2i; v0r*v0r + v1r*v1r + v2r*v2r; v0r*v0r + v1r*v1r + v2r*v2r].
+Proof. intros; autounfold with gen; ops_R; list_eq ltac:(first [ ring | (rewrite sqrt_sqrt by nra; ring) ]). Qed.
+Lemma tie_matrix_normsq a00 a01 a02 a10 a11 a12 b00 b01 b10 b11 b20 b21 c00r c00i c01r c01i c10r c10i c11r c11i :
+  matrix_normsq (OO:=ROps) a00 a01 a02 a10 a11 a12 b00 b01 b10 b11 b20 b21 c00r c00i c01r c01i c10r c10i c11r c11i =
+  [a00*a00 + a01*a01 + a02*a02 + a10*a10 + a11*a11 + a12*a12; b00*b00 + b01*b01 + b10*b10 + b11*b11 + b20*b20 + b21*b21;
+   c00r*c00r + c00i*c00i + c01r*c01r + c01i*c01i + c10r*c10r + c10i*c10i + c11r*c11r + c11i*c11i; 0].
+Proof. tie. Qed.
